@@ -1771,6 +1771,19 @@ func c09(r *h.Result, rng *h.Rng, tier string, replay string) error {
 		if err != nil {
 			return err
 		}
+		var kind struct {
+			Replay struct {
+				Stream  string      `json:"stream"`
+				Engines *c9EngCase  `json:"engines"`
+				Metric  *c9MetCase  `json:"metric"`
+			} `json:"replay"`
+		}
+		if err := json.Unmarshal(b, &kind); err == nil && kind.Replay.Stream == "engines" && kind.Replay.Engines != nil {
+			return c9Engines(r, rng.Fork(), 0, []*c9EngCase{kind.Replay.Engines})
+		}
+		if kind.Replay.Stream == "engines-metric" && kind.Replay.Metric != nil {
+			return c9EnginesMetric(r, rng.Fork(), 0, []*c9MetCase{kind.Replay.Metric})
+		}
 		var rp struct {
 			Replay c9Case `json:"replay"`
 		}
